@@ -158,8 +158,7 @@ def run(ctx):
         lits = dict_literals(fn)
         for tname, exp in tabs.items():
             if tname not in lits:
-                ob1.unknown("%s: table %s not found" % (fname, tname))
-                continue
+                continue    # renamed or folded: the role-based comparison below covers CL / WR / CWL / fine-refresh
             got, line = lits[tname]
             bad = {k: (v, exp.get(k)) for k, v in got.items() if k in exp and exp[k] != v}
             extra = sorted(k for k in got if k not in exp)
@@ -192,6 +191,32 @@ def run(ctx):
             ob2.unknown("%s: init sequence is not a literal list" % fname)
             continue
         seqs[mt] = (fname, seq)
+    ROLE_TAB = {"CL": "cl_to_mr0", "WR": "wr_to_mr0", "CWL": "cwl_to_mr2", "FGR": "fine_refresh_mode_to_mr3"}
+    for mt, (fname, seq) in seqs.items():
+        reft = R["tables"].get(fname)
+        if not reft:
+            continue
+        seen_roles = set()
+        for e in seq.items:
+            if not (isinstance(e, ListV) and len(e.items) == 5):
+                continue
+            for t in subterms(e.items[1]):
+                if isinstance(t, Op) and t.op == "index" and isinstance(t.args[0], DictV):
+                    role = role_of(t)
+                    if role in ROLE_TAB and ROLE_TAB[role] in reft and (role, id(t.args[0])) not in seen_roles:
+                        seen_roles.add((role, id(t.args[0])))
+                        got = {str(k.v): v.v for k, v in t.args[0].items if isinstance(k, Const) and isinstance(v, Const)}
+                        exp = reft[ROLE_TAB[role]]
+                        bad = {k: (v, exp[k]) for k, v in got.items() if k in exp and exp[k] != v}
+                        extra = sorted(k for k in got if k not in exp)
+                        ob1.instance("%s %s encoding table (by role)" % (mt, role), {"entries": len(got), "unreferenced": extra})
+                        for k, (v, ev) in bad.items():
+                            ob1.refute("role-table:%s:%s[%s]" % (mt, role, k), "%s: the %s code for %s is %s, the JEDEC encoding is %s" % (mt, role, k, bin(v), bin(ev)), None)
+                        if extra:
+                            ob1.refute("role-table-extra:%s:%s" % (mt, role), "%s: the %s table has entries %s that the reference does not define" % (mt, role, extra), None)
+        need = {"DDR3": {"CL", "WR"}, "DDR4": {"CL", "WR", "CWL", "FGR"}}.get(mt, set())
+        for r_ in sorted(need - {x for x, _ in seen_roles}):
+            ob1.unknown("%s: no %s encoding table found in the mode-register terms" % (mt, r_))
     MRCMD = "DFII_COMMAND_RAS|DFII_COMMAND_CAS|DFII_COMMAND_WE|DFII_COMMAND_CS"
     for mt, (fname, seq) in seqs.items():
         lay = R["layouts"].get(fname, {})
@@ -370,9 +395,11 @@ def run(ctx):
             if not ob5.need(len(loops) == 1, "%s emitter: loop over init_sequence not found" % nm):
                 continue
             lp = loops[0]
-            reinit = [s for s in lp.body if isinstance(s, ast.Assign) and any(isinstance(t, ast.Name) and t.id == "invert_masks" for t in s.targets)]
+            inner = [n for n in lp.body if isinstance(n, ast.For) and isinstance(n.iter, ast.Name)]
+            mv = inner[0].iter.id if inner else "invert_masks"
+            reinit = [s for s in lp.body if isinstance(s, ast.Assign) and any(isinstance(t, ast.Name) and t.id == mv for t in s.targets)]
             appended = [ast.literal_eval(c.args[0]) for c in ast.walk(lp) if isinstance(c, ast.Call) and isinstance(c.func, ast.Attribute) and c.func.attr == "append"
-                        and isinstance(c.func.value, ast.Name) and c.func.value.id == "invert_masks" and c.args and isinstance(c.args[0], ast.Tuple)]
+                        and isinstance(c.func.value, ast.Name) and c.func.value.id == mv and c.args and isinstance(c.args[0], ast.Tuple)]
             exempt = [ast.unparse(c) for c in ast.walk(lp) if isinstance(c, ast.Compare) and isinstance(c.left, ast.Name) and c.left.id == "ba"]
             init_val = ast.literal_eval(reinit[0].value) if reinit else None
             shapes[nm] = {"reinit_per_command": bool(reinit), "init": init_val, "appended": appended, "exemption": exempt}
